@@ -24,12 +24,14 @@ ASSUMPTIONS = [
 def shards(tier, seed):
     from vmon.spec import datain as D
 
-    out = [{"id": n, "fmt": n, "n": 40 if tier == "quick" else 800, "small": tier == "quick"} for n in D.FORMATS]
+    tiny = ("readcapacity10", "readcapacity16", "prin.readreservation", "prin.reportcapabilities")  # (32 bytes or fewer: many more of them cost nothing)
+    out = [{"id": n, "fmt": n, "n": (40 if n not in tiny else 1500) if tier == "quick" else (800 if n not in tiny else 30000), "small": tier == "quick"} for n in D.FORMATS]
     out.append({"id": "sense", "fmt": None, "n": 3000 if tier == "quick" else 100000, "small": tier == "quick"})
     out.append({"id": "readcd-params", "fmt": "readcd", "n": 0, "small": tier == "quick"})
     out.append({"id": "scaling", "fmt": None, "n": 0, "small": tier == "quick"})
     for part in range(4):
         out.append({"id": "vpd-any-%d" % part, "fmt": None, "vpd_any": True, "part": part, "parts": 4, "small": tier == "quick"})
+    out.append({"id": "new-codes", "fmt": None, "new_codes": True, "small": tier == "quick"})
     out.append({"id": "retention", "fmt": None, "retention": True, "n": 300 if tier == "quick" else 3000, "small": tier == "quick"})
     for t in ("sgio", "iscsi"):
         out.append({"id": "hostile-" + t, "fmt": None, "hostile": t, "reps": 1 if tier == "quick" else 12, "small": tier == "quick"})
@@ -306,6 +308,8 @@ def run(shard, ctx):
             return run_vpd_any(shard, ctx, sm, rng)
         if shard.get("retention"):
             return run_retention(shard, ctx, rng)
+        if shard.get("new_codes"):
+            return run_new_codes(shard, ctx, sm, rng)
         f = D.FORMATS[shard["fmt"]]
         cls = f.lib_cls()
         if shard["id"] == "readcd-params":
@@ -726,6 +730,115 @@ def run_vpd_any(shard, ctx, sm, rng):
             if r2 > 2.5 * r1 + 5:
                 ctx.fail("C11:inquiry.vpd%02x.superlinear_work" % page, "VPD page %02Xh (%s): %.1f steps/byte on %d bytes but %.1f steps/byte on %d bytes" % (page, shape, r1, l1, r2, l2),
                          {"decoder": "inquiry.vpd%02x" % page, "shape": shape, "bytes": [l1, l2], "steps": [s1, s2]})
+
+
+def run_new_codes(shard, ctx, sm, rng):
+    """page and sub-page codes, descriptor types and counts that the library's source names and the recorded baseline does not
+    (vmon/srcdict.py; nothing on the unchanged tree): most likely a decoder that is new. It gets what new decoders meet -
+    lists of type/length records in the header forms SPC uses (types from the new literals, lengths consistent and not), nested
+    lists, and zero-filled bodies with one to three bytes set to such values, at every pair of positions"""
+    import itertools
+
+    from pyscsi.pyscsi.scsi_cdb_inquiry import Inquiry
+    from pyscsi.pyscsi.scsi_cdb_modesense6 import ModeSense6
+    from pyscsi.pyscsi.scsi_cdb_modesense10 import ModeSense10
+
+    from vmon import srcdict
+
+    nov = srcdict.novel_exact()
+    if not nov:
+        return
+    b8 = sorted({v for v in nov if 0 <= v < 256} | {v & 0xFF for v in nov if v < 65536} | {v >> 8 for v in nov if 255 < v < 65536})
+    t16 = sorted({v for v in nov if 0 <= v < 65536})[:24]
+    vals = sorted(set(b8[:16]) | {1, 2, 6, 0x10, 0x80, 0xFF})
+    small_lens = sorted({0, 4, 8, 12, 20, 40} | {v for v in nov if 0 < v <= 64})[:10]
+
+    def records(n_max):
+        """bodies made of type/length records"""
+        for form in ("t16_l16", "t8_r8_l16", "t8_l8"):
+            for _ in range(n_max):
+                body = b""
+                for _r in range(rng.randint(1, 4)):
+                    t = rng.choice(t16 + [0, 1, 2, 3]) if t16 else rng.randrange(4)
+                    ln = rng.choice(small_lens)
+                    kind = rng.random()
+                    if kind < 0.4:
+                        payload = bytes(ln)
+                    elif kind < 0.7:
+                        payload = bytes(rng.choice(vals + [0, 0, 0]) for _i in range(ln))
+                    else:
+                        inner = b"".join(bytes([rng.choice(vals), 0, 0, rng.choice([0, 4, 8])]) for _i in range(rng.randint(0, 3)))
+                        payload = (len(inner).to_bytes(2, "big") + inner + bytes(ln))[:max(ln, 2)]
+                    claimed = len(payload) if rng.random() < 0.8 else rng.choice([0, 1, len(payload) + 4, 0xFFFF])
+                    if form == "t16_l16":
+                        body += (t & 0xFFFF).to_bytes(2, "big") + (claimed & 0xFFFF).to_bytes(2, "big") + payload
+                    elif form == "t8_r8_l16":
+                        body += bytes([t & 0xFF, rng.choice([0, 0, 1])]) + (claimed & 0xFFFF).to_bytes(2, "big") + payload
+                    else:
+                        body += bytes([t & 0xFF, claimed & 0xFF]) + payload
+                yield form, body
+                if len(body) > 8:
+                    yield form + "_cut", body[: rng.randrange(4, len(body))]
+
+    def sparse():
+        for L in (8, 12, 16, 20, 24, 32, 48, 64):
+            if L <= 24:
+                for i, j in itertools.combinations(range(L), 2):
+                    for a, b in ((x, y) for x in vals for y in vals):
+                        body = bytearray(L)
+                        body[i], body[j] = a, b
+                        yield "two_bytes_set", bytes(body)
+            for _ in range(400):
+                body = bytearray(L)
+                for pos in rng.sample(range(L), 3):
+                    body[pos] = rng.choice(vals)
+                yield "three_bytes_set", bytes(body)
+
+    def drive(label, decoder, wrap, bodies, cap):
+        n = 0
+        for shape, body in bodies:
+            n += 1
+            if n > cap:
+                break
+            m = wrap(body)
+            out, steps = sm.run(lambda m=m: decoder(bytearray(m)), BASE + SLOPE * len(m), opaque_cpu=0.5 + 20e-6 * len(m))
+            ctx.count("monitored_calls")
+            ctx.count("new_code_structures_decoded")
+            if out in ("budget", "opaque"):
+                ctx.fail("C11:%s.nonterminating.%s" % (label, shape), "%s (%s, %d bytes) did not finish within its budget" % (label, shape, len(m)), {"decoder": label, "shape": shape, "buffer": m})
+                return
+        ctx.case(("new-codes", label, n), True)
+
+    cap = 6000 if shard["small"] else 60000
+
+    def enum_values(modname, attr):
+        try:
+            import importlib
+
+            e = getattr(importlib.import_module(modname), attr)
+            return sorted({getattr(e, k) for k in e.keys if isinstance(getattr(e, k), int)})
+        except Exception:  # noqa: BLE001
+            return []
+
+    # (the page code of a new decoder is usually not new: the enumerations list more page codes than there are decoders)
+    vpd_pages = sorted(set([v for v in b8 if v >= 0x80 or v == 0][:8]) | set(enum_values("pyscsi.pyscsi.scsi_enum_inquiry", "VPD")))
+    for page in vpd_pages:
+        drive("inquiry.vpd%02x" % page, lambda m: Inquiry.unmarshall_datain(m, evpd=1), lambda body, page=page: bytes([0, page]) + len(body).to_bytes(2, "big") + body,
+              itertools.chain(records(300), sparse()), cap)
+    pages = sorted(set([v for v in b8 if 0 < v < 0x3F][:6]) | {v for v in enum_values("pyscsi.pyscsi.scsi_enum_modesense", "PAGE_CODE") if 0 < v < 0x3F})
+    subs = sorted(set([v for v in b8][:4]) | {0x01, 0xFF})
+    cap = cap // 3
+    for page in pages:
+        for sub in [None] + subs:
+            if sub is None:
+                wrap6 = lambda body, page=page: bytes([3 + 2 + len(body) & 0xFF, 0, 0, 0]) + bytes([page, len(body) & 0xFF]) + body  # noqa: E731
+                wrap10 = lambda body, page=page: (6 + 2 + len(body)).to_bytes(2, "big") + bytes(6) + bytes([page, len(body) & 0xFF]) + body  # noqa: E731
+            else:
+                wrap6 = lambda body, page=page, sub=sub: bytes([3 + 4 + len(body) & 0xFF, 0, 0, 0]) + bytes([0x40 | page, sub]) + len(body).to_bytes(2, "big") + body  # noqa: E731
+                wrap10 = lambda body, page=page, sub=sub: (6 + 4 + len(body)).to_bytes(2, "big") + bytes(6) + bytes([0x40 | page, sub]) + len(body).to_bytes(2, "big") + body  # noqa: E731
+            tag = "%02x" % page + ("" if sub is None else "_%02x" % sub)
+            drive("modesense10.page%s" % tag, ModeSense10.unmarshall_datain, wrap10, itertools.chain(records(150), sparse()), cap // 2)
+            drive("modesense6.page%s" % tag, ModeSense6.unmarshall_datain, wrap6, itertools.chain(records(60), sparse()), cap // 6)
 
 
 def run_retention(shard, ctx, rng):
